@@ -12,7 +12,7 @@ from ..alg import Sym, is_zero, Unsupported
 from ..flow import lexically_inside, Flow
 
 SCORES = "typhon/retrieval/scores.py"
-EXPECT = {"C19.args": 4, "C19.exact": 5, "C19.pinball": 5, "C19.shapes": 2, "C19.flat": 2, "C19.mape": 6, "C19.bias": 6}
+EXPECT = {"C19.mean": 1, "C19.args": 4, "C19.exact": 5, "C19.pinball": 5, "C19.shapes": 2, "C19.flat": 2, "C19.mape": 6, "C19.bias": 6}
 
 
 def _elementwise(ctx, fname):
@@ -355,11 +355,44 @@ def rule_flat(ctx):
                node=rets[0], func=f, witness=None if not notflat else {"y_pred.shape": "(n,)", "y_test.shape": "(n, 1)", "perfect prediction": "score != 0"})
 
 
+def rule_mean(ctx):
+    ctx.rule("C19.mean", "T6", "mean_quantile_score = np.nanmean(quantile_score(y_tau, y_test, taus), axis=0): one mean per quantile fraction over the samples")
+    f = ctx.func(SCORES, "mean_quantile_score")
+    flow = Flow(f)
+    rets = [r_ for r_ in flow.stmts if isinstance(r_, ast.Return) and r_.value is not None]
+    if len(rets) != 1:
+        raise AnalysisError("mean_quantile_score: expected one return")
+    from ..canon import canon
+    v = flow.resolve(rets[0].value, at=rets[0], depth=4, stop=tuple(f.params))
+    v = canon(v) if isinstance(v, ast.Call) else v
+    ok = False
+    fact = str(norm(v))[:120]
+    if isinstance(v, ast.Call) and (dotted(v.func) or "").split(".")[-1] in ("nanmean",) and v.args:
+        kw = {k.arg: str(norm(k.value)) for k in v.keywords}
+        axis = kw.get("axis", str(norm(v.args[1])) if len(v.args) > 1 else None)
+        inner = v.args[0]
+        qs = inner if isinstance(inner, ast.Call) and (dotted(inner.func) or "").split(".")[-1] == "quantile_score" else None
+        if qs is not None:
+            bound = dict(zip(("y_tau", "y_test", "taus"), [str(norm(a_)) for a_ in qs.args]))
+            bound.update({k.arg: str(norm(k.value)) for k in qs.keywords if k.arg})
+            ok = axis == "0" and [bound.get(n_) for n_ in ("y_tau", "y_test", "taus")] == list(f.params[:3]) and set(kw) <= {"axis"}
+        elif any(isinstance(c_, ast.Call) and (dotted(c_.func) or "").split(".")[-1] == "quantile_score" for c_ in ast.walk(inner)):
+            ok = False        # something stands between the (n, k) scores and the mean over the samples (squeeze, ravel, reshape ...)
+        else:
+            raise AnalysisError("mean_quantile_score: the averaged scores %s are not a call of quantile_score" % str(norm(inner))[:60])
+    elif not (isinstance(v, ast.Call) and any((dotted(c_.func) or "").split(".")[-1] == "quantile_score" for c_ in ast.walk(v) if isinstance(c_, ast.Call))):
+        raise AnalysisError("mean_quantile_score: returned value %s not understood" % fact)
+    ctx.ob("mean_quantile_score.reduction", ok, "return %s" % fact,
+           "np.nanmean(quantile_score(y_tau, y_test, taus), axis=0) - the (n, k) scores as they come, averaged over axis 0 (a squeeze in between "
+           "drops the sample axis of a one-element sample)", node=rets[0], func=f)
+
+
 def run(ctx):
     ctx.attempt(rule_flat, ctx)
     ctx.attempt(rule_exact, ctx)
     ctx.attempt(rule_pinball, ctx)
     ctx.attempt(rule_shapes, ctx)
+    ctx.attempt(rule_mean, ctx)
     ctx.attempt(percent_rule, ctx, "mape", "C19.mape", lambda q: (q, q))
     ctx.attempt(percent_rule, ctx, "bias", "C19.bias", lambda q: (q, -q))
     # the caller's arguments (arrays, filter / fill dictionaries) are not modified: an in-place update makes the next call on the same objects wrong
